@@ -15,6 +15,22 @@ Scripted shapes (always present among the histories), then a random tail:
   S3  compute_rpo, idom, remove_node(RPO-numbered block), idom, compute_rpo
   S4  compute_rpo, add_node x, add_edge(u, x), compute_rpo, remove_node x, compute_rpo, idom
   S5  idom, idom, add_catch_edge, idom, compute_rpo, compute_rpo
+  S6  idom, compute_rpo, <in-place retarget of one successor, graph stays rooted>, idom, compute_rpo
+  S7  idom, compute_rpo, <remove-one-append-another | g.edges[n] = new list | swap of two successors>, idom, compute_rpo,
+      <wholesale reassignment of g.edges / g.catch_edges / g.nodes>, <retarget>, idom
+
+Direct pokes (what tests/test_decompiler_dominator.py and control_flow.catch_struct do to a Graph, bypassing the
+mutator methods; k = e for g.edges, c for g.catch_edges):
+  retarget k u i d     g.<k>[u][i] = d                     (d not yet a successor of u)
+  swap k u i j         exchange two successors of u
+  replace1 k u c d     g.<k>[u].remove(c); g.<k>[u].append(d)
+  setlist k u l        g.<k>[u] = l
+  reassign edges|catch_edges|nodes   the attribute is rebound to a fresh container (nodes: in a new order)
+  reroot x             g.entry = x                         (only when every node is reachable from x)
+  del_edges u          del g.edges[u]                      (u has no normal successor)
+After a poke the harness rebuilds reverse_edges / reverse_catch_edges from the forward maps, so that a later
+remove_node finds consistent predecessor lists.  No mutator method is called between a scripted poke and the
+query that follows it (pokes are chosen so that the graph stays rooted).
 """
 from __future__ import annotations
 
@@ -51,9 +67,34 @@ class Abs:
                     todo.append(v)
         return seen
 
+    def lst(self, kind, u):
+        return (self.e if kind == "e" else self.c)[u]
+
+    def copy(self):
+        import copy
+        return copy.deepcopy(self)
+
+    def rooted(self):
+        return len(self.reach()) == len(self.ids)
+
     def apply(self, op):
         k = op[0]
-        if k == "add_node":
+        if k == "retarget":
+            self.lst(op[1], op[2])[op[3]] = op[4]
+        elif k == "swap":
+            l = self.lst(op[1], op[2]); l[op[3]], l[op[4]] = l[op[4]], l[op[3]]
+        elif k == "replace1":
+            l = self.lst(op[1], op[2]); l.remove(op[3]); l.append(op[4])
+        elif k == "setlist":
+            (self.e if op[1] == "e" else self.c)[op[2]] = list(op[3])
+        elif k == "reassign":
+            if op[1] == "nodes":
+                self.ids = list(op[2])
+        elif k == "reroot":
+            self.entry = op[1]
+        elif k == "del_edges":
+            pass
+        elif k == "add_node":
             self.ids.append(op[1]); self.e[op[1]] = []; self.c[op[1]] = []; self.next = max(self.next, op[1] + 1)
         elif k == "add_edge":
             if op[2] not in self.e[op[1]]:
@@ -79,6 +120,56 @@ def _removable(rng, a: Abs, prefer=None):
         if len(a.reach(without=x)) == len(a.ids) - 1:
             return x
     return None
+
+
+def _poke(rng, a: Abs, kinds=("retarget", "swap", "replace1", "setlist")):
+    """a direct poke that keeps the graph rooted (None if none was found in a few tries)"""
+    for _ in range(12):
+        what = rng.choice(kinds)
+        k = "e" if rng.random() < 0.8 else "c"
+        us = [u for u in a.ids if a.lst(k, u)]
+        if not us:
+            continue
+        u = rng.choice(us)
+        l = a.lst(k, u)
+        free = [d for d in a.ids if d not in l]
+        if what == "retarget" and free:
+            op = ("retarget", k, u, rng.randrange(len(l)), rng.choice(free))
+        elif what == "swap" and len(l) >= 2:
+            i, j = rng.sample(range(len(l)), 2)
+            op = ("swap", k, u, i, j)
+        elif what == "replace1" and free:
+            op = ("replace1", k, u, rng.choice(l), rng.choice(free))
+        elif what == "setlist":
+            new = [d for d in l if rng.random() < 0.7] + ([rng.choice(free)] if free and rng.random() < 0.7 else [])
+            op = ("setlist", k, u, tuple(dict.fromkeys(new)))
+        else:
+            continue
+        b = a.copy()
+        b.apply(op)
+        if b.rooted():
+            return op
+    return None
+
+
+def _other_poke(rng, a: Abs):
+    r = rng.random()
+    if r < 0.45:
+        what = rng.choice(("edges", "catch_edges", "nodes"))
+        if what == "nodes":
+            ids = list(a.ids); rng.shuffle(ids)
+            return ("reassign", "nodes", tuple(ids))
+        return ("reassign", what)
+    if r < 0.75:
+        cands = [x for x in a.ids if x != a.entry]
+        rng.shuffle(cands)
+        for x in cands[:6]:
+            b = a.copy(); b.entry = x
+            if b.rooted():
+                return ("reroot", x)
+        return None
+    leaves = [u for u in a.ids if not a.e[u]]
+    return ("del_edges", rng.choice(leaves)) if leaves else None
 
 
 def generate(seed, index):
@@ -118,7 +209,17 @@ def generate(seed, index):
         if x is not None:
             push(("remove_node", x))
 
-    shape = index % 8            # shapes S1..S5 for index % 8 in 0..4, purely random histories otherwise
+    def poke(kinds=("retarget", "swap", "replace1", "setlist")):
+        op = _poke(rng, a, kinds)
+        if op is not None:
+            push(op)
+
+    def other():
+        op = _other_poke(rng, a)
+        if op is not None:
+            push(op)
+
+    shape = index % 8            # shapes S1..S7 for index % 8 in 0..6, purely random histories otherwise
     if shape == 0:
         query("idom"); remove(); query("idom")
     elif shape == 1:
@@ -130,9 +231,21 @@ def generate(seed, index):
     elif shape == 4:
         query("idom"); query("idom"); push(("add_catch_edge", rng.choice(a.ids), rng.choice(a.ids)))
         query("idom"); query("compute_rpo"); query("compute_rpo")
+    elif shape == 5:
+        query("idom"); query("compute_rpo"); poke(("retarget",)); ops.append(("idom",)); ops.append(("compute_rpo",))
+    elif shape == 6:
+        query("idom"); query("compute_rpo"); poke(("replace1", "setlist", "swap")); ops.append(("idom",)); ops.append(("compute_rpo",))
+        other(); poke(("retarget",))
+        if a.rooted():
+            ops.append(("idom",))
     while len(ops) < MAX_OPS - 4:
         r = rng.random()
-        if r < 0.10:
+        if rng.random() < 0.3:
+            # a direct poke followed at once by a query (no mutator call in between)
+            poke() if rng.random() < 0.7 else other()
+            if a.rooted() and len(ops) < MAX_OPS - 2:
+                ops.append((rng.choice(("idom", "compute_rpo")),))
+        elif r < 0.10:
             push(("add_node", a.next))
         elif r < 0.35:
             push(("add_edge", rng.choice(a.ids), rng.choice(a.ids)))
@@ -154,7 +267,47 @@ def generate(seed, index):
 
 
 def show_ops(ops):
-    return [" ".join(str(x) for x in op) for op in ops]
+    return [" ".join(",".join(map(str, x)) if isinstance(x, (tuple, list)) else str(x) for x in op) for op in ops]
+
+
+def _rebuild_reverse(g):
+    from collections import defaultdict
+    for fwd, name in ((g.edges, "reverse_edges"), (g.catch_edges, "reverse_catch_edges")):
+        rev = defaultdict(list)
+        for u, l in fwd.items():
+            for v in l:
+                if u not in rev[v]:
+                    rev[v].append(u)
+        setattr(g, name, rev)
+
+
+def _apply_poke(g, byid, op):
+    from collections import defaultdict
+    k = op[0]
+    if k in ("retarget", "swap", "replace1", "setlist"):
+        d = g.edges if op[1] == "e" else g.catch_edges
+        u = byid[op[2]]
+        if k == "retarget":
+            d[u][op[3]] = byid[op[4]]
+        elif k == "swap":
+            l = d[u]; l[op[3]], l[op[4]] = l[op[4]], l[op[3]]
+        elif k == "replace1":
+            d[u].remove(byid[op[3]]); d[u].append(byid[op[4]])
+        else:
+            d[u] = [byid[x] for x in op[3]]
+    elif k == "reassign":
+        if op[1] == "edges":
+            g.edges = defaultdict(list, {u: list(l) for u, l in g.edges.items()})
+        elif op[1] == "catch_edges":
+            g.catch_edges = defaultdict(list, {u: list(l) for u, l in g.catch_edges.items()})
+        else:
+            g.nodes = [byid[x] for x in op[2]]
+    elif k == "reroot":
+        g.entry = byid[op[1]]
+    elif k == "del_edges":
+        if byid[op[1]] in g.edges and not g.edges[byid[op[1]]]:
+            del g.edges[byid[op[1]]]
+    _rebuild_reverse(g)
 
 
 def read_off(g):
@@ -195,6 +348,8 @@ def run(mod, seed, index):
             g.add_catch_edge(byid[op[1]], byid[op[2]])
         elif kind == "remove_node":
             g.remove_node(byid[op[1]])
+        elif kind in ("retarget", "swap", "replace1", "setlist", "reassign", "reroot", "del_edges"):
+            _apply_poke(g, byid, op)
         else:
             case = {"history": name, "query": k, "ops": show_ops(ops[:k + 1]), "start": "%s n=%d" % (fam, G0[0])}
             if len(graphgen.encode(G0)) <= 300:
